@@ -92,6 +92,52 @@ def run_session(blocks, addr):
     return calls, conn.sent, err, conn.closed
 
 
+def concurrent_sessions(frames, cut):
+    """Two sessions at once, each in its own thread as in the simulator: session A has received `cut` bytes (it sits inside a frame,
+    waiting for more) while session B sends complete frames.  B's frames are acted upon without waiting for A.  -> problem | None"""
+    import threading
+    from cpppo.server.enip import logix, device, main
+    device.lookup_reset(); logix.setup_reset()
+    main.connections.clear() if hasattr(main.connections, 'clear') else None
+    im = L.Impl(488, TAGS)
+    release = threading.Event()
+    stream = b''.join(frames)
+
+    class Waiting(FakeConn):
+        def recv(self, maxlen=4096):
+            if self.blocks:
+                return self.blocks.pop(0)
+            release.wait(20)
+            return b''
+    from cpppo import dotdict
+    from cpppo.server import network
+    saved = network.recv
+    network.recv = lambda c, maxlen=4096, timeout=None: c.recv(maxlen)
+    try:
+        srv = dotdict(); srv.control = dotdict(latency=0.0, done=False, disable=False)
+        ca, cb = Waiting([stream[:cut]]), FakeConn(readback_frames())
+        def serve(conn, addr, name):
+            try:
+                main.enip_srv_tcp(conn, addr, name, logix.process, server=srv)
+            except Exception:
+                pass                                   # (a stream that ends inside a frame ends its own session with an error)
+        ta = threading.Thread(target=serve, args=(ca, ADDR1, 'c02a'), daemon=True)
+        tb = threading.Thread(target=serve, args=(cb, ADDR2, 'c02b'), daemon=True)
+        ta.start(); time.sleep(0.05); tb.start()
+        tb.join(8)
+        stuck = tb.is_alive()
+        release.set(); ta.join(8); tb.join(8)
+        if stuck:
+            return 'a session that sent %d complete frames got %d replies within 8 s while another session sat %d bytes into its stream' % (3, len(cb.sent), cut)
+        if len(cb.sent) != 3:
+            return 'a session that sent 3 complete frames got %d replies while another session sat %d bytes into its stream' % (len(cb.sent), cut)
+    finally:
+        release.set()
+        network.recv = saved
+        im.close()
+    return None
+
+
 def scenario(blocks, same_peer=False):
     """fresh simulator; session 1 receives `blocks` then end-of-stream; session 2 reads everything back"""
     from cpppo.server.enip import logix, device, main
@@ -276,6 +322,12 @@ def run(ctx):
                 % (len(full['replies']), len(frames)))
             continue
         reply_streams.append(full['replies'])
+        # --- another session is served while this one sits inside a frame (header only / inside the payload / between frames)
+        for cut in sorted({10, 24, ends[0] + 24, ends[0] + 30, ends[1] - 1, ends[1]}):
+            pm = concurrent_sessions(frames, cut)
+            nrun += 1
+            if pm:
+                bad(dict(stream=which, bytes_received_by_the_waiting_session=cut), pm); break
         # --- chunk plans of the complete stream
         plans = plans_for(stream, rng, ctx.thorough, 5 if which else 3)
         mfr = model_frames([p for _, p in plans])
